@@ -164,7 +164,10 @@ def streamStep (s : StreamDrv) (line : String) : StreamDrv × String :=
     let kv := kvArgs rest
     let d := s.db
     let rts0 := if d.opts.managed then argNat kv "at" 0 else d.nextTs - 1
-    let d := if d.opts.managed then d else { d with readMark := d.readMark.begin rts0 }
+    -- (the harness first takes its reference snapshot with a read-only transaction of its own,
+    -- begun and discarded before the run starts: one begin/done pair at the same timestamp)
+    let d := if d.opts.managed then d else
+      { d with readMark := ((d.readMark.begin rts0).done rts0).begin rts0 }
     ({ (s.setDb d) with run := some (kv, rts0) }, "ok")
   | ["stream-end"] =>
     match s.run with
